@@ -103,6 +103,9 @@ class TU:
         self._native_lock = threading.Lock()
         self._native = {}
         text = open(self.src).read()
+        for inc in re.findall(r'^#include "([^"]+\.(?:cpp|inc))"', text, re.M):   # annotations of included local harness sources come first
+            ip = os.path.join(HDIR, inc)
+            if os.path.exists(ip): text = open(ip).read() + '\n' + text
         for m in re.finditer(r'^//@tu\s+(.*)$', text, re.M):
             self.tu_opts.update(parse_kv(m.group(1)))
         for m in re.finditer(r'^//@h\s+(\S+)\s*:\s*(.*)$', text, re.M):
@@ -120,7 +123,8 @@ class TU:
         os.makedirs(self.dir)
         ll = os.path.join(self.dir, 'tu.ll'); c = os.path.join(self.dir, 'tu.c'); gb = os.path.join(self.dir, 'tu.gb')
         t0 = time.time()
-        rc, out, err, w, _ = run([CLANG] + CLANG_FLAGS + ['-D' + d for d in self.defs] + [self.src, '-o', ll], timeout=600)
+        flags = [f for f in CLANG_FLAGS if not (f == '-fno-inline' and self.tu_opts.get('inline') == '1')]
+        rc, out, err, w, _ = run([CLANG] + flags + ['-D' + d for d in self.defs] + [self.src, '-o', ll], timeout=600)
         if rc != 0:
             if self.tu_opts.get('must_compile') == '1':
                 return ('nocompile', err)
